@@ -75,6 +75,22 @@ func storesToField(eng *Engine, typ, field string, allowed map[string]bool) (vio
 }
 
 func init() {
+	// the only close() of a channel in /repo is stream.wait closing stopCh
+	frameScans["close-sites"] = func(eng *Engine) (viol []string, n int) {
+		for _, f := range eng.allRepoFuncs() {
+			for _, b := range f.Blocks {
+				for _, in := range b.Instrs {
+					n++
+					if c, ok := in.(*ssa.Call); ok {
+						if bi, ok := c.Call.Value.(*ssa.Builtin); ok && bi.Name() == "close" && funcKey(f) != "stream.(*stream).wait" {
+							viol = append(viol, funcKey(f)+" closes a channel")
+						}
+					}
+				}
+			}
+		}
+		return
+	}
 	frameScans["norecover"] = func(eng *Engine) (viol []string, n int) {
 		for _, f := range eng.allRepoFuncs() {
 			for _, b := range f.Blocks {
